@@ -360,11 +360,12 @@ type freeSlot struct {
 }
 
 type freeStream struct {
-	r       *libaudit.Reassembler
-	reenter int
-	byID    map[int]*freeSlot // read-only while the round runs: messages that went through Push(type, raw) carry no payload
-	strayMu sync.Mutex
-	stray   [][]int // groups whose first message is nobody's
+	r         *libaudit.Reassembler
+	reenter   int
+	lostYield int               // how long EventsLost dwells (scheduler yields; above 3 also a short sleep)
+	byID      map[int]*freeSlot // read-only while the round runs: messages that went through Push(type, raw) carry no payload
+	strayMu   sync.Mutex
+	stray     [][]int // groups whose first message is nobody's
 }
 
 // slotOf finds the slot of a delivered message: by its payload, or (Push of raw text) by the id written into
@@ -408,7 +409,19 @@ func (s *freeStream) ReassemblyComplete(msgs []*auparse.AuditMessage) {
 	}
 }
 
-func (s *freeStream) EventsLost(int) {}
+// EventsLost is a callback like the other one: it may take its time (other goroutines run meanwhile) and it
+// may re-enter the Reassembler.
+func (s *freeStream) EventsLost(int) {
+	for i := 0; i < s.lostYield; i++ {
+		runtime.Gosched()
+	}
+	if s.lostYield > 3 {
+		time.Sleep(time.Duration(s.lostYield) * 10 * time.Microsecond)
+	}
+	if s.reenter > 0 && s.lostYield%2 == 1 {
+		s.r.Maintain()
+	}
+}
 
 func concFreeCmd(args []string) int {
 	fs := flag.NewFlagSet("conc-free", flag.ExitOnError)
@@ -431,7 +444,8 @@ func concFreeCmd(args []string) int {
 				runtime.Gosched()
 			}
 		}
-		st := &freeStream{reenter: []int{0, 0, 3, 7}[rng.Intn(4)]}
+		st := &freeStream{reenter: []int{0, 0, 3, 7}[rng.Intn(4)], lostYield: []int{0, 1, 4, 9}[rng.Intn(4)]}
+		stride := []int{1, 1, 2, 3}[rng.Intn(4)] // above 1 the pushers leave sequence numbers out: losses are reported while others push
 		r, err := libaudit.NewReassembler(rng.Intn(4), 10000*time.Hour, st)
 		if err != nil {
 			fatal("NewReassembler: %v", err)
@@ -457,6 +471,13 @@ func concFreeCmd(args []string) int {
 		}
 		closes := make([]closeRec, closers)
 		closeAfter := rng.Intn(pushers * perPusher)
+		// end game: every pusher holds its last push until all the others have only theirs left, and Close is
+		// called at that moment - the last pushes, their callbacks and Close overlap and nothing comes afterwards
+		endgame := rng.Intn(3) == 0
+		lastGate := make(chan struct{})
+		if endgame {
+			closeAfter = pushers * (perPusher - 1)
+		}
 		var pushCount int64
 		var panics int64
 		guard := func(f func()) { // a panic in the library is an observation, not the end of the driver
@@ -479,7 +500,7 @@ func concFreeCmd(args []string) int {
 			prng := rand.New(rand.NewSource(rng.Int63()))
 			for i := 0; i < perPusher; i++ {
 				id := p*100000 + i + 1
-				off := i/2 + prng.Intn(2) // pushers share sequence numbers
+				off := (i/2 + prng.Intn(2)) * stride // pushers share sequence numbers
 				sl := &freeSlot{id: id, seq: uint32(0xFFFFFFF0) + uint32(off)}
 				if p%2 == 1 { // every other pusher hands over raw text, as a netlink read loop does
 					sl.raw = fmt.Sprintf("audit(1490137971.011:%d): vid=%d", sl.seq, id)
@@ -494,8 +515,11 @@ func concFreeCmd(args []string) int {
 			go func(p int) {
 				defer wg.Done()
 				buf := make([]byte, 0, 128)
-				for _, pp := range plan[p] {
+				for i, pp := range plan[p] {
 					sl := pp.sl
+					if endgame && i == len(plan[p])-1 {
+						<-lastGate
+					}
 					if sl.raw != "" {
 						buf = append(buf[:0], sl.raw...)
 						guard(func() { r.Push(auparse.AuditMessageType(pp.typ), buf) })
@@ -515,6 +539,7 @@ func concFreeCmd(args []string) int {
 					pushed[p] = append(pushed[p], pushRec{sl.id, pp.off, pp.typ, stamp})
 					if atomic.AddInt64(&pushCount, 1) == int64(closeAfter) {
 						close(startClose)
+						close(lastGate)
 					}
 				}
 			}(p)
@@ -548,6 +573,7 @@ func concFreeCmd(args []string) int {
 		}
 		if closeAfter == 0 {
 			close(startClose)
+			close(lastGate)
 		}
 		done := make(chan struct{})
 		go func() { wg.Wait(); close(done) }()
